@@ -181,6 +181,15 @@ pub struct Cmp {
 
 pub fn compare_tol<F: Flt>(l: &Layout, got: &Parts<F>, want: &Val, extra: Option<&Jet<DD>>, slack: f64) -> Cmp {
     let mut cmp = Cmp { ok: true, worst_slot: 0, worst_ratio: 0.0, got: 0.0, want: 0.0, tol: 0.0 };
+    // programs (slack > 1): the propagated bound is first order in the rounding errors; where
+    // the first-order bound vanishes (a part that is exactly zero mathematically but is reached
+    // through non-zero intermediate errors) the second-order terms (sum of the bounds)^2 remain
+    let second_order = if slack > 1.0 {
+        let es: f64 = want.e.c.iter().map(|c| c.to_f64()).sum();
+        4.0 * es * es
+    } else {
+        0.0
+    };
     for (i, s) in l.slots.iter().enumerate() {
         let m0 = s.monos[0];
         let w = *want.v.get(m0);
@@ -201,7 +210,7 @@ pub fn compare_tol<F: Flt>(l: &Layout, got: &Parts<F>, want: &Val, extra: Option
                 tol += ex;
             }
         }
-        tol = tol * slack + 1e-24 * w.abs_dd().to_f64() + 4096.0 * F::TINY;
+        tol = tol * slack + 1e-24 * w.abs_dd().to_f64() + 4096.0 * F::TINY + second_order;
         let g = got.alpha(l, i).to64();
         let diff = DD::f(g).sub_dd(w).abs_dd().to_f64();
         let ok = diff <= tol; // false for NaN
